@@ -172,6 +172,9 @@ def _writer_sequence(setup: FuncInfo, unix: bool) -> Tuple[List[str], str]:
 def run(ch: Checker) -> None:
     prog = ch.prog
     ce = ConstEval(prog)
+    ch.rule('C19.6', 'hand-over of accepted connections: delegate_work_to_pool sends the client address exactly under the condition under which RemoteFdExecutor.receive_from_work_queue '
+                     'reads one (both decide on unix_socket_path): otherwise the two ends of the pipe disagree about what the next message is and the worker dies on the first connection', 1)
+    ch.rule('C19.7', 'who may shut the listeners down: <x>.listeners.shutdown() is called from Proxy.shutdown only (closing the parent\'s copies earlier also unlinks the Unix socket path)', 1)
     ch.rule('C19.1', 'writer/reader agreement: with listeners created as evaluated from ListenerPool.setup (both unix-socket settings), Proxy.setup reads the primary '
                      'port from the listener created for flags.port and the additional ports from exactly the listeners created for flags.ports', 2)
     ch.rule('C19.2', 'the port file is written after flags.port / flags.ports were overwritten with the bound ports, primary first then the additional ports', 2)
@@ -449,6 +452,36 @@ def run(ch: Checker) -> None:
     ch.check(sig and jn and all('self.flags.num_workers' in r for r in rng) and len(rng) >= 2, 'C19.3b', wsd, 'workers stop+join',
              'every worker is signalled and joined (loops over num_workers)',
              'ThreadlessPool._shutdown_workers does not signal and join all num_workers workers (calls %s, loops %s)' % (txt, rng))
+    # ---------------- C19.6 sender / receiver agreement on the address message
+    dw = prog.function('proxy.core.work.delegate', 'delegate_work_to_pool')
+    rx = prog.own_method('RemoteFdExecutor', 'receive_from_work_queue')
+
+    def _guard_of(fn: FuncInfo, pred: Any) -> Optional[Dict[str, bool]]:
+        gg = cfg_of(fn, prog, exc_edges=False)
+        seen = None
+        for p in fpaths(gg):
+            for i, st in p.stmts():
+                if any(pred(c) for c in walk_no_nested(st)):
+                    fd = {k.replace('self.flags.', ''): v for k, v in allfacts(p, i).items()}
+                    seen = fd if seen is None else {k: v for k, v in seen.items() if fd.get(k) == v}
+        return seen
+    g_tx = _guard_of(dw, lambda c: isinstance(c, ast.Call) and isinstance(c.func, ast.Attribute) and c.func.attr == 'send' and c.args and norm(c.args[0]) == dw.params[dw.params.index('addr')] if 'addr' in dw.params else False)
+    g_rx = _guard_of(rx, lambda c: isinstance(c, ast.Call) and attr_chain(c.func) == 'self.work_queue.recv')
+    ok6 = g_tx is not None and g_rx is not None and g_tx == g_rx and 'unix_socket_path' in g_tx
+    ch.check(bool(ok6), 'C19.6', dw, 'address message: sender = receiver', 'address sent and read under the same condition %s' % g_tx,
+             'the acceptor sends the client address under %s but the remote executor reads one under %s: with a Unix socket AND TCP ports configured the first TCP connection leaves an unread '
+             'message in the pipe, recv_handle() fails and the worker\'s loop ends -- no endpoint is served any more' % (g_tx, g_rx))
+
+    # ---------------- C19.7 who may shut the listeners down
+    callers7 = []
+    for fn in prog.all_functions('proxy'):
+        for c in walk_no_nested(fn.node):
+            if isinstance(c, ast.Call) and (attr_chain(c.func) or '').endswith('listeners.shutdown'):
+                callers7.append(fn.qualname)
+    ch.check(callers7 == ['Proxy.shutdown'], 'C19.7', prog.own_method('Proxy', 'shutdown'), 'who may call listeners.shutdown()', 'only Proxy.shutdown',
+             'listeners.shutdown() is called from %s: shutting the parent\'s listeners down while the proxy runs removes the Unix socket path (UnixSocketListener.shutdown unlinks it), so that '
+             'endpoint stops accepting right after start-up' % callers7)
+
     # ---------------- C19.5
     _ports_flag_check(ch)
 
